@@ -29,12 +29,14 @@ Inductive fty :=
 | FPtr (id : N) (elem : sty)            (* pointer to a scalar type *)
 | FJson (id : N)                        (* struct, map, slice, pointer to struct: bound via JSON *)
 | FIface (id : N)                       (* interface type (any): ZeroValue().Value() is nil *)
-| FOther (id : N) (kd : N) (elem : option (N * N)).
+| FOther (id : N) (kd : N) (elem : option (N * N))
+| FIfaceNE (id : N).                    (* a non-empty interface type (error, fmt.Stringer ...) that no decoded value of the
+                                           universe implements: NewValue's assertion fails, ZeroValue().Value() is nil *)
    (* array, chan, func, pointer to array / pointer / chan ...: reflect.Kind number kd; for a pointer
       whose element is not a scalar, struct, slice or map: the element's type id and Kind *)
 
 Definition fty_id (t : fty) : N :=
-  match t with FScalar s => s_id s | FPtr id _ | FJson id | FIface id | FOther id _ _ => id end.
+  match t with FScalar s => s_id s | FPtr id _ | FJson id | FIface id | FOther id _ _ | FIfaceNE id => id end.
 
 Inductive sval := SBool (b : bool) | SStr (s : string) | SInt (z : Z) | SF32 (bits : Z) | SF64 (bits : Z).
 
@@ -334,6 +336,7 @@ Definition try_convert (T : fty) (v : dval) : outcome (option bval) :=
   match T, v with
   | FIface _, DNil => Ok None          (* nil does not assert; targetType is nil *)
   | FIface _, _ => Ok (Some (BSame v))
+  | FIfaceNE _, _ => Ok None           (* the assertion fails; targetType is nil: declined before any conversion *)
   | _, _ =>
   if match dval_ty v with Some id => N.eqb id (fty_id T) | None => false end then Ok (Some (BSame v))
   else
